@@ -44,7 +44,7 @@ GLOBAL_RULES = [
 class Fn:
     def __init__(self, file, owner, name, ret='r', requires=(), ensures=(), loops=None, rules=(),
                  inject=(), sig_rules=(), decreases=None, label=None, mode=None, twin_wrap=None, props=None, safety_props=None,
-                 no_twin=False, attrs=(), ensures_if_param=()):
+                 no_twin=False, attrs=(), ensures_if_param=(), skip_global=()):
         self.file = file
         self.owner = owner
         self.name = name
@@ -62,6 +62,7 @@ class Fn:
         self.props = props
         self.safety_props = safety_props
         self.ensures_if_param = list(ensures_if_param)   # [(param name, (label, expr))]: clause added only if the signature has that parameter
+        self.skip_global = set(skip_global)   # rule ids of the global table not to apply to this function
         self.attrs = list(attrs)    # verifier attributes emitted before the signature (e.g. exec_allows_no_decreases_clause: stated, counted)
         self.no_twin = no_twin      # trait-impl members cannot get a renamed twin; allowed only for functions without `requires`
 
@@ -160,7 +161,7 @@ def assemble(template, fns, twins=False, repo=REPO):
             if re.search(r'\b' + re.escape(pname) + r'\s*:\s*&mut\b', sig) and clause not in fn.ensures:
                 fn.ensures.append(clause)
         body = rustscan.strip_comments(item.body)
-        body = _apply_rules(body, GLOBAL_RULES, hits)
+        body = _apply_rules(body, [r for r in GLOBAL_RULES if r.rid not in fn.skip_global], hits)
         body = _apply_rules(body, fn.rules, hits)
         body_lines = body.split('\n')
         # ghost injections (specification only): appended to the end of the first matching line
